@@ -1,2 +1,56 @@
-(* props/C07.v — placeholder until the theorems of this property are added. *)
-From Prophy Require Import Bytes Schema Layout Wire PcModel.
+(* props/C07.v — the generated C++ decoder is memory-safe and exact on arbitrary bytes (model level).
+   [cpp_dec]/[cpp_decode] (model/CppFull.v) follow generate_struct_decode / generate_union_decode and the
+   helpers of detail/decoder.hpp statement by statement. Tests (`size_t(end - pos) < n`) and loads are kept
+   apart: a load outside [data, data + size) is the outcome CCrash, `size_t(end - pos)` is the pointer
+   difference reinterpreted as unsigned (so a cursor past `end` would make every later test pass), and the
+   `while (true)` of the greedy decoder runs on fuel whose exhaustion is CCrash too.
+   Proved for every legal schema and EVERY byte string below 2^64 bytes: CCrash is unreachable — no load
+   outside the buffer, termination of the greedy loop —, the cursor only moves forward and never past `end`,
+   every array is resized to at most the number of bytes left, and decode() is true only if exactly the whole
+   input was consumed. Not covered by a theorem: undefined behaviour of the compiled artefact other than
+   out-of-bounds loads (known finding KF-B: enum loads), that the decoded object re-encodes to the same number
+   of bytes, and the agreement of the real headers with this model — checks/C07.py runs the compiled decoder
+   under ASan/UBSan or guard bytes with an allocation counter on every truncation and corruption and compares
+   its verdict with the model's inside Coq. Model assumption: n * sizeof(T) does not overflow size_t. *)
+From Coq Require Import ZArith List Bool Lia.
+From Prophy Require Import Bytes Schema Layout Wire Src PyDecode PcModel CppFull Arith Views PcFacts CppDecFacts.
+Import ListNotations.
+Local Open Scope Z_scope.
+
+Theorem C07_no_out_of_bounds_no_hang :
+  forall e fs data, len data < 2 ^ 64 -> legal (TStruct fs) = true ->
+    cpp_decode e (TStruct fs) data <> CCrash.
+Proof. exact cpp_decode_safe. Qed.
+Print Assumptions C07_no_out_of_bounds_no_hang.
+
+(* at every nesting level and every start position inside the buffer: the cursor moves forward (by at least
+   one byte unless the type is unlimited) and stays inside the buffer *)
+Theorem C07_cursor_stays_inside :
+  forall e data fuel t pos, len data < 2 ^ 64 -> Z.of_nat fuel > len data ->
+    legal t = true -> PyDecode.is_comp t = true -> 0 <= pos <= len data ->
+    match cpp_dec e data fuel t pos with
+    | CTrue (_, p) => pos + (if stiff_eqb (stiffness t) Unlimited then 0 else 1) <= p <= len data
+    | CFalse => True
+    | CCrash => False
+    end.
+Proof. intros e data fuel t pos Hs Hf Hl Hc Hp. exact (cpp_dec_safe e data fuel Hs Hf t Hl Hc pos Hp). Qed.
+Print Assumptions C07_cursor_stays_inside.
+
+Theorem C07_true_only_if_all_consumed :
+  forall e t data v, cpp_decode e t data = CTrue v ->
+    exists p, cpp_dec e data (S (length data)) t 0 = CTrue (v, p) /\ p = len data.
+Proof. exact cpp_decode_exact. Qed.
+Print Assumptions C07_true_only_if_all_consumed.
+
+(* non-vacuity: a message with an optional u64, a nested dynamic struct, a union and a limited array decodes
+   from its canonical bytes, and every proper prefix of them is refused *)
+Definition ex_D := TStruct [(FPlain, TScalar U32); (FBound 0%nat, TScalar U8)].
+Definition ex_t := TStruct [(FPlain, TScalar U8); (FOpt, TScalar U64); (FPlain, ex_D); (FPlain, TScalar U16);
+                            (FPlain, TUnion [(3, TScalar U8); (9, TScalar U64)]); (FPlain, TScalar U32); (FLimited 3 5%nat, TScalar I16)].
+Definition ex_v := VStruct [VInt 1; VSome (VInt 2); VStruct [VInt 3; VList [VInt 7; VInt 8; VInt 9]]; VInt 5; VUnion 1 (VInt 77);
+                            VInt 2; VList [VInt (-2); VInt 4]].
+Example C07_example :
+  legal ex_t = true /\ cpp_decode BE ex_t (wire BE ex_t ex_v) = CTrue ex_v /\
+  forallb (fun n => match cpp_decode BE ex_t (firstn n (wire BE ex_t ex_v)) with CFalse => true | _ => false end)
+          (seq 0 (length (wire BE ex_t ex_v))) = true.
+Proof. vm_compute. repeat split; reflexivity. Qed.
